@@ -4,7 +4,6 @@ import (
 	"bytes"
 	"context"
 	"fmt"
-	"math"
 
 	"github.com/filecoin-project/go-f3/internal/caching"
 	"github.com/filecoin-project/go-state-types/cbor"
@@ -363,35 +362,36 @@ func (v *cachingValidator) validateJustification(ctx context.Context, valueKey *
 	// to the required vote values for justification by that phase.
 	// Anything else is disallowed.
 	expectations := map[Phase]map[Phase]struct {
-		Round uint64
-		Key   *ECChainKey
+		Round    uint64
+		AnyRound bool
+		Key      *ECChainKey
 	}{
 		// CONVERGE is justified by a strong quorum of COMMIT for bottom,
 		// or a strong quorum of PREPARE for the same value, from the previous round.
 		CONVERGE_PHASE: {
-			COMMIT_PHASE:  {msg.Vote.Round - 1, &zeroKey},
-			PREPARE_PHASE: {msg.Vote.Round - 1, msgKey},
+			COMMIT_PHASE:  {Round: msg.Vote.Round - 1, Key: &zeroKey},
+			PREPARE_PHASE: {Round: msg.Vote.Round - 1, Key: msgKey},
 		},
 		// PREPARE is justified by the same rules as CONVERGE (in rounds > 0).
 		PREPARE_PHASE: {
-			COMMIT_PHASE:  {msg.Vote.Round - 1, &zeroKey},
-			PREPARE_PHASE: {msg.Vote.Round - 1, msgKey},
+			COMMIT_PHASE:  {Round: msg.Vote.Round - 1, Key: &zeroKey},
+			PREPARE_PHASE: {Round: msg.Vote.Round - 1, Key: msgKey},
 		},
 		// COMMIT is justified by a strong quorum of PREPARE from the same round with the same value.
 		COMMIT_PHASE: {
-			PREPARE_PHASE: {msg.Vote.Round, msgKey},
+			PREPARE_PHASE: {Round: msg.Vote.Round, Key: msgKey},
 		},
 		// DECIDE is justified by a strong quorum of COMMIT with the same value.
 		// The DECIDE message doesn't specify a round.
 		DECIDE_PHASE: {
-			COMMIT_PHASE: {math.MaxUint64, msgKey},
+			COMMIT_PHASE: {AnyRound: true, Key: msgKey},
 		},
 	}
 
 	var expectedVoteValueKey ECChainKey
 	if expectedPhases, ok := expectations[msg.Vote.Phase]; ok {
 		if expected, ok := expectedPhases[msg.Justification.Vote.Phase]; ok {
-			if msg.Justification.Vote.Round != expected.Round && expected.Round != math.MaxUint64 {
+			if !expected.AnyRound && msg.Justification.Vote.Round != expected.Round {
 				return fmt.Errorf("message %v has justification from wrong round %d", msg, msg.Justification.Vote.Round)
 			}
 
